@@ -80,14 +80,19 @@ def loop_paths(ctx, heap=None, collections=None, havoc_on_call=True, bind=None, 
         return _CACHE[ck]
     f, loop = sim_loop(ctx)
 
+    from .alloc import alloc_region
+    allocator = {id(g.node) for g in alloc_region(ctx)}
+
     def pol(call, callee, depth):
-        return callee.cls == PROJECT and not _has_loop(callee) and callee.name not in ("initialize",)
+        # private pieces of the step (update / perform / record / pay wrappers, whatever they are called) are followed; the
+        # allocation phase stays one opaque call (it has its own analysis)
+        return callee.cls == PROJECT and callee.name.startswith("_") and not callee.name.endswith("__") and id(callee.node) not in allocator
 
     base_pol = pol
     if inline is not None:
         def pol(call, callee, depth):  # noqa: F811
             return base_pol(call, callee, depth) or inline(call, callee, depth)
-    I = mk_interp(ctx, inline=pol, auto_helpers=False, collections=collections or {}, havoc_on_call=havoc_on_call, integral={"self.time"}, max_depth=max_depth)
+    I = mk_interp(ctx, inline=pol, auto_helpers=False, collections=collections or {}, havoc_on_call=havoc_on_call, integral={"self.time"}, max_depth=max(max_depth, 3))
     st = State()
     st.env["self"] = Obj("self", PROJECT)
     ft = ctx.types.ftypes(f)
